@@ -188,13 +188,16 @@ Before(tab, spec, x, y) == BeforeFrom(tab, spec, 1, x, y)
 KeyVal(key, probe) == CASE key.src = "q" -> probe.q [] key.src = "p" -> probe.p
                         [] key.src = "id" -> I(probe.id) [] OTHER -> Bad
 
-KeyMatches(tab, row, key, probe) ==
-  LET v    == KeyVal(key, probe)
-      cell == Rich(tab.ty[key.col], row[key.col])
-  IN IF key.how = "eq" THEN PyEq(cell, Conv(tab.ty[key.col], v))
+\* cv = the key value as it is looked up: converted to the column's type for "eq", as given for CONTAINS
+KeyConv(tab, key, probe) ==
+  IF key.how = "eq" THEN Conv(tab.ty[key.col], KeyVal(key, probe)) ELSE KeyVal(key, probe)
+
+KeyMatches(tab, row, key, cv) ==
+  LET cell == Rich(tab.ty[key.col], row[key.col])
+  IN IF key.how = "eq" THEN PyEq(cell, cv)
      ELSE IF cell.k # "l" THEN FALSE                     \* a text is not a container of its characters
-     ELSE IF cell.l = <<>> THEN key.how = "inme" /\ PyEq(v, key.me)
-     ELSE \E j \in 1..Len(cell.l) : PyEq(cell.l[j], v)
+     ELSE IF cell.l = <<>> THEN key.how = "inme" /\ PyEq(cv, key.me)
+     ELSE \E j \in 1..Len(cell.l) : PyEq(cell.l[j], cv)
 
 KeyDecidable(tab, key, probe) ==
   LET v == KeyVal(key, probe)
@@ -206,11 +209,13 @@ KeyDecidable(tab, key, probe) ==
              /\ \A j \in 1..Len(tab.rows) : Rich("ChoiceList", tab.rows[j][key.col]).k = "l"
 
 Matching(tab, obs, probe) ==
-  {j \in 1..Len(tab.rows) : \A x \in 1..Len(obs.keys) : KeyMatches(tab, tab.rows[j], obs.keys[x], probe)}
+  LET cv == [x \in 1..Len(obs.keys) |-> KeyConv(tab, obs.keys[x], probe)]
+  IN {j \in 1..Len(tab.rows) : \A x \in 1..Len(obs.keys) : KeyMatches(tab, tab.rows[j], obs.keys[x], cv[x])}
 
-Decidable(tab, obs, probe, hasms) ==
+\* M = the matching rows
+Decidable(tab, obs, probe, M, spec) ==
   /\ \A x \in 1..Len(obs.keys) : KeyDecidable(tab, obs.keys[x], probe)
-  /\ Comparable(tab, {tab.rows[j] : j \in Matching(tab, obs, probe)}, SortSpec(obs, hasms))
+  /\ Comparable(tab, M, spec)
 
 RowOf(tab, id) == tab.rows[CHOOSE j \in 1..Len(tab.rows) : tab.rows[j].id = id]
 
@@ -224,7 +229,7 @@ Clauses(tab, obs, probe, cell) ==
       spec  == SortSpec(obs, hasms)
       M     == {tab.rows[j] : j \in Matching(tab, obs, probe)}
       ids   == {r.id : r \in M}
-  IN IF ~Decidable(tab, obs, probe, hasms) THEN {"C13.undecidable"}
+  IN IF ~Decidable(tab, obs, probe, M, spec) THEN {"C13.undecidable"}
      ELSE IF cell.e # "" THEN {"C13.raised"}
      ELSE IF obs.one
      THEN \* the first matching row in the documented order, or the empty record (id 0)
@@ -328,7 +333,8 @@ Probe(row, col, val)          == E("probe", row, col, val, "", None, <<>>, <<>>,
 
 Content(k, L, s1, s2, r) == [k |-> k, L |-> L, s1 |-> s1, s2 |-> s2, r |-> r]
 MkRow(id, pos, c) == [id |-> id, pos |-> pos, k |-> c.k, L |-> c.L, s1 |-> c.s1, s2 |-> c.s2, r |-> c.r]
-SetCell(row, c, v) == [row EXCEPT ![c] = v]
+\* (the engine drops an update whose value is == the stored one: 1 over 1.0 leaves 1.0)
+SetCell(row, c, v) == IF PyEq(row[c], v) THEN row ELSE [row EXCEPT ![c] = v]
 
 Types0 == [k |-> "Int", L |-> "ChoiceList", s1 |-> "Int", s2 |-> "Text", r |-> "Ref"]
 
@@ -380,7 +386,7 @@ ApplyEdit(st, e) ==
                                                           ELSE r)]
        [] e.op = "retype" ->
             [st EXCEPT !.ty = [st.ty EXCEPT ![e.col] = e.val.s],
-                       !.rows = Map(LAMBDA r : SetCell(r, e.col, ConvStored(e.val.s, r[e.col])))]
+                       !.rows = Map(LAMBDA r : [r EXCEPT ![e.col] = ConvStored(e.val.s, r[e.col])])]
        [] e.op = "repl" ->
             [st EXCEPT !.rows = ById({MkRow(e.ids[x], x, e.rows[x]) : x \in 1..Len(e.ids)})]
        [] e.op = "probe" ->
